@@ -6,13 +6,20 @@
    Proved: Count-Min, HyperLogLog, Top-K on elements that are valid UTF-8, Bloom (through the
    bitset bit packing) and cuckoo (for every state satisfying the slot-count invariant).
    REFUTED: Top-K elements that are not valid UTF-8 come back with U+FFFD (known finding).
-   Redis Count-Min: Export reads the represented matrix and Import under a new key gives a copy
-   representing the same sketch with the exporter untouched. The other Redis variants' documents
-   are tied by correspondence (documents, Equals and paired queries after importing under new
-   keys, exporter unchanged). *)
+   Redis variants, on the Redis models: Count-Min Export reads the represented matrix and Import
+   under a new key gives a copy representing the same sketch with the exporter untouched;
+   HyperLogLog Export reads the represented registers and Import under any data key represents
+   them again; the Bloom image/import pair returns the identical Redis string and cached size;
+   cuckoo Import writes exactly the exported bucket lists (holes included), counters and Length,
+   so a consistent filter is imported as a consistent filter with the same buckets; the Top-K
+   sorted set of every reachable state is strictly ordered and is rebuilt exactly by the ZADD
+   loop of Import. The documents themselves, Equals and paired queries after importing under new
+   keys are additionally diffed against the code. *)
 From GX.Model Require Import Base CMS Bloom HLL Cuckoo Heap TopK Codec Persist.
-From GX.Model Require Import Redis RedisCMS.
+From GX.Model Require Import Redis RedisCMS RedisHLL RedisBloom RedisCuckoo RedisTopK.
 From GX.Proofs Require Import ListLemmas JsonProofs EqualsProofs CuckooInv BloomCodec DocProofs RedisCMSRefine.
+From GX.Proofs Require Import HLLProofs RedisHLLRefine RedisCuckooInv TopKInv TopKRedisInv RedisDocProofs RedisCuckooDoc RedisTopKDoc.
+From Coq Require Import ZArith.
 
 Theorem C10_cms_roundtrip : forall s key, imp_cms (doc_cms s key) = Ok s.
 Proof. exact cms_doc_roundtrip. Qed.
@@ -67,6 +74,63 @@ Theorem C10_redis_cms_import_new_key : forall rows cols s h m key' allsum meta',
   refines rows cols s' (mkRcms rows cols allsum key' meta') m /\ refines rows cols s' h m.
 Proof. exact import_new_key_refines. Qed.
 
+(* Redis HyperLogLog *)
+Theorem C10_redis_hll_export_is_registers : forall s h mh,
+  hrefines s h mh -> rhll_export_regs s h = Ok (h_regs mh).
+Proof. exact rhll_export_is_registers. Qed.
+Theorem C10_redis_hll_import_represents : forall s h mh key,
+  hwf mh -> h_regs mh <> [] -> key <> rh_meta h ->
+  exists h' s', rhll_import s h (h_m mh) (h_p mh) (h_alpha mh) (h_regs mh) key = (Ok h', s') /\
+                hrefines s' h' mh /\ rh_key h' = key /\ rh_meta h' = rh_meta h.
+Proof. exact rhll_import_represents. Qed.
+
+(* Redis Bloom: the image written by Export, fed to Import, stores the identical string *)
+Theorem C10_redis_bloom_roundtrip : forall s h v s2 h2 m k,
+  r_get s (rb_key h) = Some v -> Forall (fun b => (b < 256)%N) v -> (rb_bsize h < two64)%N ->
+  rb_nil h = false -> rb_nil h2 = false -> rb_key h2 <> rb_meta h2 ->
+  exists img h' s', rbloom_image s h = Ok img /\ rbloom_import s2 h2 m k img = (Ok h', s') /\
+    r_get s' (rb_key h') = Some v /\ rb_key h' = rb_key h2 /\ rb_bsize h' = rb_bsize h /\
+    rb_size h' = m /\ rb_k h' = k /\ rb_nil h' = false.
+Proof. exact rbloom_image_import_roundtrip. Qed.
+
+(* Redis cuckoo: Import writes the exported lists, counters and Length; a consistent filter is
+   imported as a consistent filter with the same buckets *)
+Theorem C10_redis_cuckoo_import_views : forall key meta,
+  (forall i, meta <> bucket_key key i) -> (forall i, meta <> len_key (bucket_key key i)) ->
+  forall size bsize fpl retries s len (bks : list (list bytes)),
+  N.of_nat (length bks) = size -> meta <> key ->
+  let s' := snd (rck_import s size bsize fpl retries len bks key meta) in
+  (forall i, (i < size)%N ->
+     blist key s' i = nth (N.to_nat i) bks [] /\
+     bcount key s' i = Some (Z.of_N (count_nonempty (nth (N.to_nat i) bks [])))) /\
+  mlen meta s' = Some (Z.of_N len).
+Proof. exact rck_import_views. Qed.
+Theorem C10_redis_cuckoo_import_of_export : forall key meta,
+  (forall i, meta <> bucket_key key i) -> (forall i, meta <> len_key (bucket_key key i)) ->
+  forall size bsize fpl retries key0 meta0 s0 s,
+  (1 <= bsize)%N -> (bsize < 2 ^ 62)%N -> meta <> key ->
+  RI key0 meta0 size bsize s0 ->
+  let bks := map (fun i => blist key0 s0 i) (nseq size) in
+  let s' := snd (rck_import s size bsize fpl retries (N.of_nat (tot key0 size s0)) bks key meta) in
+  RI key meta size bsize s' /\ (forall i, (i < size)%N -> blist key s' i = blist key0 s0 i) /\
+  tot key size s' = tot key0 size s0.
+Proof. exact rck_import_of_export_RI. Qed.
+
+(* Redis Top-K: every reachable sorted set is rebuilt exactly by Import's ZADD loop *)
+Theorem C10_redis_topk_heap_rebuilt : forall s hkey entries,
+  zstrict entries -> NoDup (names entries) ->
+  r_zset (rtopk_import_heap s hkey entries) hkey = entries.
+Proof. exact rtopk_import_heap_roundtrip. Qed.
+Theorem C10_redis_topk_heap_roundtrip : forall (cpos : N -> N -> bytes -> list N) rows cols,
+  (forall x, length (cpos rows cols x) = N.to_nat rows) ->
+  (forall x p, In p (cpos rows cols x) -> (p < cols)%N) -> (0 < rows)%N -> (0 < cols)%N ->
+  forall s t H ins s2 hkey',
+  RTI cpos rows cols s t H -> zstrict (heap_of s t) -> (1 <= rt_k t)%N ->
+  Forall (fun e => (1 <= snd e)%N) ins -> (CMSProofs.total (H ++ ins) < B53)%N ->
+  exists t' s', rtrun cpos s t ins = (Ok t', s') /\
+    r_zset (rtopk_import_heap s2 hkey' (heap_of s' t')) hkey' = heap_of s' t'.
+Proof. exact redis_topk_heap_roundtrip. Qed.
+
 Print Assumptions C10_cms_roundtrip.
 Print Assumptions C10_hll_roundtrip.
 Print Assumptions C10_topk_roundtrip_utf8.
@@ -76,3 +140,7 @@ Print Assumptions C10_imported_equals_original_cms.
 Print Assumptions C10_bloom_roundtrip.
 Print Assumptions C10_cuckoo_roundtrip.
 Print Assumptions C10_redis_cms_import_new_key.
+Print Assumptions C10_redis_hll_import_represents.
+Print Assumptions C10_redis_bloom_roundtrip.
+Print Assumptions C10_redis_cuckoo_import_of_export.
+Print Assumptions C10_redis_topk_heap_roundtrip.
